@@ -378,3 +378,11 @@ func Atomic(f func()) {
 	defer atomicMu.Unlock()
 	f()
 }
+
+func Bounded(maxBytes int, f func()) {
+	var before, after runtime.MemStats
+	runtime.ReadMemStats(&before)
+	f()
+	runtime.ReadMemStats(&after)
+	Assert(after.TotalAlloc-before.TotalAlloc <= uint64(maxBytes), "no-alloc")
+}
